@@ -101,7 +101,7 @@ def run(ctx):
         c.ob("R2", ok, md, "cutoff-between-exact-and-partial", "synthetic events return after the exact match, before partials and '*'" if ok else
              "the internal-event cut-off is not placed between the exact match and the partial/wildcard matches", cu)
         syn = _synthetic_prefixes(p)
-        c.floor("R2", "synthetic event families constructed by the engine", len(syn), 4)
+        c.floor("R2", "synthetic event families constructed by the engine", len(syn), 3)
         for fam, sites in sorted(syn.items()):
             ok = fam in pref
             f0, x0 = sites[0]
